@@ -7,6 +7,7 @@ import numpoly
 
 from ..baseclass import PolyLike
 from ..dispatch import implements
+from .argmax import rank_with_ties
 
 
 @implements(numpy.argmin)
@@ -54,8 +55,4 @@ def argmin(
 
     """
     a = numpoly.aspolynomial(a)
-    options = numpoly.get_options()
-    proxy = numpoly.sortable_proxy(
-        a, graded=options["sort_graded"], reverse=options["sort_reverse"]
-    )
-    return numpy.argmin(proxy, axis=axis, out=out)
+    return numpy.argmin(rank_with_ties(a), axis=axis, out=out)
